@@ -55,8 +55,28 @@ func c07Hints(t *rapid.T, label string) string {
 	return s
 }
 
-// c07Delta draws an expiry offset in seconds with a ±5 s guard band around now.
+// c07Delta draws an expiry offset in seconds with a ±5 s guard band around
+// now. The whole range of 8-hex-digit expiry fields is covered: besides
+// offsets of seconds to years there are absolute timestamps around 2^31 and
+// up to 0xffffffff (future) and down to 0x10000000 (past; below that the
+// Rails reference does not zero-pad, so it is outside the common domain).
 func c07Delta(t *rapid.T, label string, future bool) int64 {
+	now := time.Now().Unix()
+	if rapid.IntRange(0, 4).Draw(t, label+"Absolute") == 0 {
+		var abs int64
+		if future {
+			abs = rapid.SampledFrom([]int64{0x7ffffffe, 0x7fffffff, 0x80000000, 0x80000001, 0x8fffffff, 0x90000000, 0xa0000000, 0xc0de0000, 0xf0000000, 0xfffffffe, 0xffffffff}).Draw(t, label+"Abs")
+			if rapid.Bool().Draw(t, label+"AbsRnd") {
+				abs = rapid.Int64Range(now+10, 0xffffffff).Draw(t, label+"AbsVal")
+			}
+		} else {
+			abs = rapid.SampledFrom([]int64{0x10000000, 0x10000001, 0x1fffffff, 0x20000000, 0x50000000, 0x5fffffff, 0x60000000}).Draw(t, label+"Abs")
+			if rapid.Bool().Draw(t, label+"AbsRnd") {
+				abs = rapid.Int64Range(0x10000000, now-10).Draw(t, label+"AbsVal")
+			}
+		}
+		return abs - now
+	}
 	d := rapid.SampledFrom([]int64{5, 6, 60, 3600, 86400, 14 * 86400, 365 * 86400, 5 * 365 * 86400}).Draw(t, label)
 	d += rapid.Int64Range(0, 3600).Draw(t, label+"Jitter") % (d/2 + 1)
 	if !future {
